@@ -469,7 +469,7 @@ void ep8_mul_basic(ep8_t r, const ep8_t p, const bn_t k) {
 
 void ep8_mul_slide(ep8_t r, const ep8_t p, const bn_t k) {
 	ep8_t t[1 << (RLC_WIDTH - 1)], q;
-	uint8_t win[RLC_FP_BITS + 1];
+	uint8_t *win = NULL;
 	size_t l;
 
 	ep8_null(q);
@@ -479,6 +479,9 @@ void ep8_mul_slide(ep8_t r, const ep8_t p, const bn_t k) {
 		return;
 	}
 
+	/* The scalar is not reduced (p may lie outside the subgroup). */
+	win = RLC_ALLOCA(uint8_t, bn_bits(k) + 1);
+
 	RLC_TRY {
 		for (size_t i = 0; i < (1 << (RLC_WIDTH - 1)); i ++) {
 			ep8_null(t[i]);
@@ -486,6 +489,10 @@ void ep8_mul_slide(ep8_t r, const ep8_t p, const bn_t k) {
 		}
 
 		ep8_new(q);
+
+		if (win == NULL) {
+			RLC_THROW(ERR_NO_MEMORY);
+		}
 
 		ep8_copy(t[0], p);
 		ep8_dbl(q, p);
@@ -504,7 +511,7 @@ void ep8_mul_slide(ep8_t r, const ep8_t p, const bn_t k) {
 #endif
 
 		ep8_set_infty(q);
-		l = RLC_FP_BITS + 1;
+		l = bn_bits(k) + 1;
 		bn_rec_slw(win, &l, k, RLC_WIDTH);
 		for (size_t i = 0; i < l; i++) {
 			if (win[i] == 0) {
@@ -530,6 +537,7 @@ void ep8_mul_slide(ep8_t r, const ep8_t p, const bn_t k) {
 			ep8_free(t[i]);
 		}
 		ep8_free(q);
+		RLC_FREE(win);
 	}
 }
 
